@@ -74,7 +74,7 @@ fn c01g_lzdict_repeat_step() {
 
 // C07-D: a match that is cut by the output limit and completed by repeat_pending after the limit moved gives the same
 // bytes as the uncut match.
-//@ {"name":"c07d_lzdict_limit_split","props":["C07","C01"],"obligation":"C07-D","timeout":1500,"mem_gb":9,"functions":["lz::lz_decoder::LZDecoder::repeat","lz::lz_decoder::LZDecoder::repeat_pending","lz::lz_decoder::LZDecoder::set_limit"],"bounds":"16-byte ring, arbitrary content, pos..limit split at any point, len 2..=4, any valid dist; unwind 20","assumes":["representation invariant inv()","full == buf_size or no wrap (same invariant)"]}
+//@ {"name":"c07d_lzdict_limit_split","props":["C07","C01"],"tier":"thorough","obligation":"C07-D","timeout":3600,"mem_gb":9,"functions":["lz::lz_decoder::LZDecoder::repeat","lz::lz_decoder::LZDecoder::repeat_pending","lz::lz_decoder::LZDecoder::set_limit"],"bounds":"16-byte ring, arbitrary content, pos..limit split at any point, len 2..=4, any valid dist; unwind 20","assumes":["representation invariant inv()","full == buf_size or no wrap (same invariant)"]}
 #[kani::proof]
 #[kani::unwind(20)]
 fn c07d_lzdict_limit_split() {
